@@ -132,10 +132,13 @@ func (d *Reader) Read(p []byte) (n int, err error) {
 		j = c - 255 + _Threshold
 		for k = 0; k < j; k++ {
 			c = int(d.z.textBuf[(i+k)&(_N-1)])
-			if n < len(p) {
+			switch {
+			case d.state.pos >= d.header.size:
+				// Match runs past the declared size: count it (Close reports ErrChecksum), but don't deliver it.
+			case n < len(p):
 				p[n] = byte(c)
 				n++
-			} else {
+			default:
 				d.state.buf.WriteByte(byte(c))
 			}
 			d.z.textBuf[d.state.r] = byte(c)
